@@ -4,8 +4,9 @@ What the reactor does to the REPORTED task of a worker message (the part the fra
 
 * `taskFinished_gone`, `taskFailed_gone` — the task leaves the map;
 * `taskRunning_own` — it was at the reporting worker and is Running there (or RunningMultiNode with the `started` flag);
-* `taskReject_own` — it becomes ownerless (no `ComputeTasks` is sent), or — Retracting with a redirect — Assigned to the
-  redirect target, with exactly one `ComputeTasks` item, to the target.
+* `taskReject_own` — it becomes ownerless (no `ComputeTasks` is sent; this includes a multi-node task refused by its
+  root before the start was reported: the reserved workers are reset), or — Retracting with a redirect — Assigned to the
+  redirect target, with exactly one `ComputeTasks` item, to the target, or — multi-node, started — nothing happens.
 -/
 namespace HqModel.Core
 open HqModel HqModel.SysW
@@ -171,15 +172,49 @@ theorem taskRunning_own {s s' : State} {w : Nat} {id : TaskId} {rv : Nat} {o : O
       · cases h
     all_goals cases h
 
-/-- `task_reject` for the reported task, when it is at the rejecting worker -/
+/-- replacing a worker record by one with the same assignment does not change `mnStarted` -/
+theorem mnStarted_setWorker_same {s : State} {w : Nat} {wk0 wk : Worker} (hw : s.worker? w = some wk0)
+    (hid : wk.id = wk0.id) (ha : wk.assign = wk0.assign) (x : Nat) (t : TaskId) :
+    mnStarted (s.setWorker wk) x t = mnStarted s x t := by
+  have hidw : wk0.id = w := findWorker_some_id hw
+  have hf : ∀ y, (s.setWorker wk).worker? y = if y = wk.id then (s.worker? y).map (fun _ => wk) else s.worker? y :=
+    fun y => findWorker_putWorker _ _ _
+  apply Bool.eq_iff_iff.mpr
+  rw [mnStarted_iff, mnStarted_iff]
+  constructor
+  · rintro ⟨wk1, r, h1, h2⟩
+    rw [hf] at h1
+    split at h1
+    · rename_i e
+      have hxw : x = w := by rw [e, hid, hidw]
+      subst hxw
+      rw [hw] at h1
+      simp only [Option.map_some, Option.some.injEq] at h1
+      subst h1
+      exact ⟨wk0, r, hw, ha ▸ h2⟩
+    · exact ⟨wk1, r, h1, h2⟩
+  · rintro ⟨wk1, r, h1, h2⟩
+    by_cases e : x = wk.id
+    · have hxw : x = w := by rw [e, hid, hidw]
+      subst hxw
+      rw [hw] at h1
+      cases h1
+      exact ⟨wk, r, by rw [hf, if_pos e, hw]; rfl, ha.trans h2⟩
+    · exact ⟨wk1, r, by rw [hf, if_neg e]; exact h1, h2⟩
+
+/-- `task_reject` for the reported task, when it is at the rejecting worker: it ends ownerless (requeued: Assigned /
+Prefilled / Retracting without redirect / RunningMultiNode whose root — the reporter — has NOT started it), or —
+Retracting with a redirect — Assigned to the redirect target with exactly one `ComputeTasks` item, or — RunningMultiNode
+with the `started` flag — the message is ignored -/
 theorem taskReject_own {s s' : State} {w : Nat} {id : TaskId} {rv : Option Nat} {o : Out} {b : Bool}
-    (hn : (taskIds s.tasks).Nodup) (hown : ∀ st, stOf s.tasks id = some st → owner st = some w)
+    (hn : (taskIds s.tasks).Nodup) (hm : MnOk s) (hown : ∀ st, stOf s.tasks id = some st → owner st = some w)
     (h : s.taskReject w id rv = .ok (s', o, b)) :
     (stOf s.tasks id = none ∧ stOf s'.tasks id = none ∧ o.msgs = [] ∧ ∀ x, s'.worker? x = s.worker? x) ∨
-    (∃ st, stOf s.tasks id = some st ∧ (∀ l, st ≠ .runningMN l) ∧ (∀ x v, st ≠ .running x v) ∧
-      ((NoCompute o.msgs ∧ ∀ st', stOf s'.tasks id = some st' → owner st' = none) ∨
+    (∃ st, stOf s.tasks id = some st ∧
+      ((viewSt s w id st ≠ .hot ∧ NoCompute o.msgs ∧ ∀ st', stOf s'.tasks id = some st' → owner st' = none) ∨
        (∃ target trv inst, st = .retracting w ∧ stOf s'.tasks id = some (.assigned target trv) ∧
-          o.msgs = [.compute target [(id, inst, some trv, [])]]))) := by
+          o.msgs = [.compute target [(id, inst, some trv, [])]]) ∨
+       (viewSt s w id st = .hot ∧ stOf s'.tasks id = some st ∧ viewSt s' w id st = .hot ∧ o.msgs = []))) := by
   simp only [State.taskReject] at h
   split at h
   · rename_i hno; cases h
@@ -191,6 +226,7 @@ theorem taskReject_own {s s' : State} {w : Nat} {id : TaskId} {rv : Option Nat} 
     split at h
     · cases h
     · rename_i wk0 hg
+      have hfw0 : s.worker? w = some wk0 := getWorker_spec hg
       -- the requeue path: the task ends ownerless
       have requeue : ∀ (s1 : State), s1.tasks = s.tasks →
           (match (s1.setTask { task with state := .waiting 0 }).addReady { task with state := .waiting 0 } with
@@ -224,7 +260,11 @@ theorem taskReject_own {s s' : State} {w : Nat} {id : TaskId} {rv : Option Nat} 
             | some y => have := sok.own (fun e => e) y ho; cases this
       split at h
       · rename_i w' rv' hs
-        refine ⟨_, hst, fun l e => (by rw [hs] at e; cases e), fun x v e => (by rw [hs] at e; cases e), .inl ?_⟩
+        have hw' : w' = w := by
+          have := hown _ hst
+          rw [hs] at this
+          cases this; rfl
+        refine ⟨_, hst, .inl ⟨by rw [hs, hw']; simp [viewSt], ?_⟩⟩
         split at h
         · refine requeue _ ?_ h; rfl
         · split at h
@@ -236,7 +276,11 @@ theorem taskReject_own {s s' : State} {w : Nat} {id : TaskId} {rv : Option Nat} 
               · rename_i s1 hw
                 exact requeue _ (by have := withWorker_tasks hw; exact this) h
       · rename_i w' hs
-        refine ⟨_, hst, fun l e => (by rw [hs] at e; cases e), fun x v e => (by rw [hs] at e; cases e), .inl ?_⟩
+        have hw' : w' = w := by
+          have := hown _ hst
+          rw [hs] at this
+          cases this; rfl
+        refine ⟨_, hst, .inl ⟨by rw [hs, hw']; simp [viewSt], ?_⟩⟩
         split at h
         · cases h
         · rename_i s1 hw
@@ -250,18 +294,80 @@ theorem taskReject_own {s s' : State} {w : Nat} {id : TaskId} {rv : Option Nat} 
           rw [hs] at this
           cases this; rfl
         subst hw'
-        refine ⟨_, hst, fun l e => (by rw [hs] at e; cases e), fun x v e => (by rw [hs] at e; cases e), ?_⟩
+        refine ⟨_, hst, ?_⟩
         split at h
         · rename_i hne; exact (hne rfl).elim
         · split at h
           · rename_i target trv hfind
             cases h
-            refine .inr ⟨target, trv, task.inst, hs, ?_, ?_⟩
+            refine .inr (.inl ⟨target, trv, task.inst, hs, ?_, ?_⟩)
             · show stOf (putTask s.tasks _) id = _
               rw [stOf_put (told := task) (by show findTask s.tasks task.id = _; rw [hid]; exact ht)]
               simp [hid]
             · simp [computeOne, hid]
-          · exact .inl (by refine requeue _ ?_ h; rfl)
+          · exact .inl ⟨by rw [hs]; simp [viewSt], by refine requeue _ ?_ h; rfl⟩
+      · -- multi-node: the reporter is the root
+        rename_i ws hs
+        refine ⟨_, hst, ?_⟩
+        split at h
+        · cases h
+        · rename_i root rest
+          have hroot : root = w := by
+            have := hown _ hst
+            rw [hs] at this
+            cases this; rfl
+          subst hroot
+          -- the root's record is a multi-node assignment for this task
+          obtain ⟨wkm, rm, stm, hwm, ham⟩ := hm id _ (by rw [hst, hs]) root List.mem_cons_self
+          have ewk : wkm = wk0 := by
+            have := hwm.symm.trans hfw0
+            cases this; rfl
+          subst ewk
+          split at h
+          · rename_i hne; exact (hne rfl).elim
+          · split at h
+            · rename_i A F P ha
+              have : wkm.assign = .sn A F P := by cases rv <;> exact ha
+              rw [ham] at this; cases this
+            · rename_i t' r' started ha
+              have ha0 : wkm.assign = .mn t' r' started := by cases rv <;> exact ha
+              rw [ham] at ha0
+              cases ha0
+              split at h
+              · -- started: ignored
+                rename_i hstarted
+                subst hstarted
+                simp only [Except.ok.injEq, Prod.mk.injEq] at h
+                obtain ⟨e1, e2, _⟩ := h
+                have h0 : mnStarted s root id = true := mnStarted_iff.mpr ⟨wkm, rm, hwm, ham⟩
+                have h1 : mnStarted s' root id = true := by
+                  rw [← e1, ← h0]
+                  exact mnStarted_setWorker_same hwm (by cases rv <;> rfl) (by cases rv <;> rfl) root id
+                refine .inr (.inr ⟨by rw [hs]; simp [viewSt, h0], by rw [← e1]; show stOf s.tasks id = _; rw [hst], ?_,
+                  by rw [← e2]⟩)
+                rw [hs]; simp [viewSt, h1]
+              · -- not started: the workers are reset, the task is requeued
+                rename_i hns
+                have hfalse : stm = false := by
+                  cases stm with
+                  | false => rfl
+                  | true => exact absurd rfl hns
+                subst hfalse
+                have h0 : mnStarted s root id = false := by
+                  cases hms : mnStarted s root id with
+                  | false => rfl
+                  | true =>
+                    obtain ⟨wk1, r1, hw1, ha1⟩ := mnStarted_iff.mp hms
+                    have : wk1 = wkm := by
+                      have := hw1.symm.trans hwm
+                      cases this; rfl
+                    subst this
+                    rw [ham] at ha1; cases ha1
+                split at h
+                · cases h
+                · rename_i s1 hr
+                  exact .inl ⟨by rw [hs]; simp [viewSt, h0],
+                    requeue _ (by have := resetMnChecked_tasks _ _ _ _ hr; exact this) h⟩
       all_goals cases h
 
 end HqModel.Core
